@@ -177,6 +177,73 @@ static void case_table(Rng& rng, uint64_t index)
 	if(index % 499 == 0)
 		sample();
 }
+// files whose size is exactly (or one byte off) a power-of-two block size: readers that work through a file in blocks meet the end of the data exactly at
+// a block boundary (seeded change C20-r7m2 counted lines in 16 KiB blocks and lost the last row when the final read came back empty)
+static void case_block_sized_table(Rng& rng, uint64_t index)
+{
+	static const long T[5] = {4096, 8192, 16384, 32768, 65536};
+	long target = T[index % 5] + (long) ((index / 5) % 3) - 1;
+	int cols	= rng.irange(3, 12);
+	std::vector<double> dims;
+	bool units = rng.coin(0.5);
+	if(units)
+		for(int j = 0; j < cols; j++)
+			dims.push_back(rng.coin(0.3) ? 1.0 : rng.loguni(1e-10, 1e10));
+	int rows = (int) (target / (cols * 9)) + 2;
+	std::vector<std::vector<double>> data(rows, std::vector<double>(cols));
+	for(auto& r : data)
+		for(int j = 0; j < cols; j++)
+			r[j] = gen_value(rng, units ? dims[j] : 1.0);
+	std::string path = scratch_file(index, "blocktable");
+	set_params(J().i("target_bytes", target).i("columns", cols));
+	hash_param_u(index);
+	auto size_of = [&]() -> long {
+		struct stat st;
+		return stat(path.c_str(), &st) == 0 ? (long) st.st_size : -1;
+	};
+	long got = -1;
+	std::string header;
+	for(int attempt = 0; attempt < 200 && !data.empty(); attempt++)
+	{
+		Export_Table(path, data, dims, "#");
+		long S = size_of();
+		if(S < 0)
+			break;
+		if(S > target)
+		{
+			data.pop_back();
+			continue;
+		}
+		header = "#" + std::string((size_t) (target - S), 'x');
+		Export_Table(path, data, dims, header);
+		got = size_of();
+		break;
+	}
+	if(got != target || data.empty())
+	{
+		count_outside("table-read-back-has-the-same-shape");
+		unlink(path.c_str());
+		return;
+	}
+	mark_nontrivial();
+	rows = (int) data.size();
+	leave_errno(rng);
+	std::vector<std::vector<double>> back = Import_Table(path, dims, 1u);
+	unlink(path.c_str());
+	bool shape = (int) back.size() == rows;
+	for(auto& r : back)
+		shape = shape && (int) r.size() == cols;
+	require("table-read-back-has-the-same-shape", shape, [&] { return J().i("file_bytes", got).i("rows_written", rows).i("rows_read", (long long) back.size()).i("columns_read", back.empty() ? 0 : (long long) back[0].size()); });
+	if(!shape)
+		return;
+	for(int i = 0; i < rows; i++)
+		for(int j = 0; j < cols; j++)
+			if(!close6(back[i][j], data[i][j]))
+			{
+				require("table-values-read-back-to-six-digits", false, [&] { return J().i("file_bytes", got).i("row", i).i("column", j).d("written", data[i][j]).d("read", back[i][j]); });
+				return;
+			}
+}
 static void case_list(Rng& rng, uint64_t index)
 {
 	int n		= rng.irange(1, 200);
@@ -460,6 +527,7 @@ static void setup()
 	} cleaner;
 	add_generator("unit_identities", 1, case_unit_identities);
 	add_generator("tables", ctx().count(28800, 3600000), case_table);
+	add_generator("block_sized_tables", ctx().count(45, 1500), case_block_sized_table);
 	add_generator("lists", ctx().count(9600, 1200000), case_list);
 	add_generator("functions", ctx().count(4800, 600000), case_function);
 	add_generator("in_units_overloads", ctx().count(32000, 4000000), case_in_units);
